@@ -1337,3 +1337,13 @@ mod tests {
         vt.terminal.view().iter().map(|l| l.wrapped).collect()
     }
 }
+
+#[cfg(feature = "verif")]
+impl Vt {
+    pub fn verif_state(&self) -> crate::verif::VtState {
+        crate::verif::VtState {
+            parser: self.parser.verif_state(),
+            terminal: self.terminal.verif_state(),
+        }
+    }
+}
